@@ -16,6 +16,8 @@ std::uint64_t vp_live_count() noexcept;           // heap blocks currently alive
 std::uint64_t vp_thread_id() noexcept;
 void vp_hb_write(std::uint32_t id) noexcept;       // C04 ghost: a plain write of tracked variable id happens here
 void vp_hb_read(std::uint32_t id) noexcept;        // C04 ghost: a plain read of tracked variable id happens here (must be ordered after the write)
+void vp_hb_sync_release(std::uint32_t id) noexcept;  // C04 ghost: a MODELLED hand-off (stub executor mailbox) publishes / observes, no schedule point
+void vp_hb_sync_acquire(std::uint32_t id) noexcept;
 void vp_sync_point() noexcept;                    // an explicit schedule point (sequentialised schedules may preempt here)
 int vp_yield_to_pending() noexcept;               // run the pending unit now if it has not run yet (returns 1), else 0
 }
